@@ -596,7 +596,7 @@ example : powNat 2 exN 2 = some (.ok ⟨[1, 4], [4, 16]⟩) := by
   norm_num [exN]
 example : numRightK 2 .npFloat .div exP 0 = .error .Other := by decide +kernel
 example : numRightK 2 .pyFloat .div exP 0 = .error .ZeroDivision := by decide +kernel
-/-- the reciprocal of a p-box straddling zero is NOT covered: here the constructor rejects it -/
-example : recip 2 ⟨[-2, 1], [-1, 3]⟩ = .error .Other := by decide +kernel
+/-- the reciprocal of a p-box straddling zero is NOT covered: `reciprocal` raises `ZeroDivisionError` -/
+example : recip 2 ⟨[-2, 1], [-1, 3]⟩ = .error .ZeroDivision := by decide +kernel
 
 end Pun.PBox.Num
